@@ -110,6 +110,102 @@ func (l *Loaded) bind() []string {
 }
 
 func newEngine(l *Loaded) *Engine {
+	e := newEngine0(l)
+	e.pkgInit = map[*ssa.Package]bool{}
+	e.globalsRead = map[string]bool{}
+	e.opaqueUsed = map[string]bool{}
+	e.globalWriters = scanGlobalWriters(l)
+	return e
+}
+
+// scanGlobalWriters finds, for every package-level variable of the module, the functions
+// other than package initialisers that store to it (directly or through an element address).
+func scanGlobalWriters(l *Loaded) map[string][]string {
+	out := map[string][]string{}
+	for _, fn := range allModuleFunctions(l) {
+		if fn.Synthetic != "" || strings.HasPrefix(fn.Name(), "init#") || fn.Name() == "init" {
+			continue
+		}
+		for _, b := range fn.Blocks {
+			for _, in := range b.Instrs {
+				var addr ssa.Value
+				switch x := in.(type) {
+				case *ssa.Store:
+					addr = x.Addr
+				case *ssa.MapUpdate:
+					addr = x.Map
+				default:
+					continue
+				}
+				if g := rootGlobal(addr); g != nil && g.Pkg != nil {
+					k := g.Pkg.Pkg.Name() + "." + g.Name()
+					if !contains(out[k], funcKey(fn)) {
+						out[k] = append(out[k], funcKey(fn))
+					}
+				}
+			}
+		}
+	}
+	return out
+}
+
+func rootGlobal(addr ssa.Value) *ssa.Global {
+	for depth := 0; depth < 10 && addr != nil; depth++ {
+		switch x := addr.(type) {
+		case *ssa.Global:
+			return x
+		case *ssa.FieldAddr:
+			addr = x.X
+		case *ssa.IndexAddr:
+			addr = x.X
+		case *ssa.UnOp:
+			addr = x.X
+		case *ssa.Slice:
+			addr = x.X
+		default:
+			return nil
+		}
+	}
+	return nil
+}
+
+func allModuleFunctions(l *Loaded) []*ssa.Function {
+	seen := map[*ssa.Function]bool{}
+	var out []*ssa.Function
+	var add func(f *ssa.Function)
+	add = func(f *ssa.Function) {
+		if f == nil || seen[f] {
+			return
+		}
+		seen[f] = true
+		out = append(out, f)
+		for _, a := range f.AnonFuncs {
+			add(a)
+		}
+	}
+	for _, sp := range l.spkgs {
+		if !strings.HasPrefix(sp.Pkg.Path(), modulePrefix) {
+			continue
+		}
+		for _, m := range sp.Members {
+			switch x := m.(type) {
+			case *ssa.Function:
+				add(x)
+			case *ssa.Type:
+				for _, t := range []types.Type{x.Type(), types.NewPointer(x.Type())} {
+					ms := l.prog.MethodSets.MethodSet(t)
+					for i := 0; i < ms.Len(); i++ {
+						add(l.prog.MethodValue(ms.At(i)))
+					}
+				}
+			}
+		}
+	}
+	sort.Slice(out, func(i, j int) bool { return out[i].String() < out[j].String() })
+	return out
+}
+
+func newEngine0(l *Loaded) *Engine {
 	return &Engine{prog: l.prog, cs: l.cs, bound: l.bound, notes: map[string]bool{}, counters: map[string]int{}, fset: l.fset,
 		globals: map[*ssa.Global]*Object{}, globalVal: map[*Object]interface{}{}, maxSteps: 3000000, inlined: map[string]bool{}, funcsUsed: map[string]bool{}, frozen: map[string]bool{}}
 }
@@ -193,7 +289,7 @@ func cmdDump(args []string) {
 		os.MkdirAll(dir, 0o755)
 	}
 	start := time.Now()
-	dischargeAll(e.obligs, dir, *timeout, 16)
+	dischargeAll(e.obligs, dir, *timeout, 8)
 	for _, ob := range e.obligs {
 		status := "ok"
 		if ob.Result != ob.Expect {
